@@ -295,11 +295,19 @@ func (p *sparser) postfix() (*SExpr, error) {
 					name = e.Args[0].Name + "." + e.Name
 				}
 			}
+			var recv *SExpr
+			if name == "" && e.Kind == "sel" {
+				name = "." + e.Name
+				recv = e.Args[0]
+			}
 			if name == "" {
 				return nil, fmt.Errorf("call of non-identifier")
 			}
 			p.next()
 			var args []*SExpr
+			if recv != nil {
+				args = append(args, recv)
+			}
 			for !p.isOp(")") {
 				a, err := p.expr(0)
 				if err != nil {
